@@ -10,6 +10,7 @@ import linecache
 import textwrap
 import types
 from collections.abc import Callable
+from collections.abc import Iterator
 from typing import TYPE_CHECKING
 from typing import Any
 
@@ -213,7 +214,24 @@ def _find_non_builtin_globals(
             # a global statement refers to the module namespace whatever
             # the name means in an enclosing function
             found.extend(node.names)
+    # what the compiled code really looks up globally: a comprehension
+    # variable is among co_varnames (since Python 3.12) although the same
+    # name used outside the comprehension is a global
+    for name in _global_lookups(codeobj):
+        if name not in found and (name not in builtins.__dict__ or shadowed(name)):
+            found.append(name)
     return found
+
+
+def _global_lookups(codeobj: types.CodeType) -> Iterator[str]:
+    import dis
+
+    for instruction in dis.get_instructions(codeobj):
+        if instruction.opname in ("LOAD_GLOBAL", "STORE_GLOBAL", "DELETE_GLOBAL"):
+            yield instruction.argval
+    for const in codeobj.co_consts:
+        if isinstance(const, types.CodeType):
+            yield from _global_lookups(const)
 
 
 def _source_of_function(function: types.FunctionType | Callable[..., object]) -> str:
